@@ -1,6 +1,8 @@
 """C10 - Offer lifecycle: wait, repetition and cyclic phases; nothing follows a StopOffer."""
 from __future__ import annotations
 
+import collections
+
 from hypothesis import strategies as st
 
 from .. import hist, wire
@@ -95,6 +97,11 @@ def fixed_cases(tier):
                 *[{"kind": "script", "tm": tm, "n": 1, "fr": [0.5], "steps": [{"op": "start", "when": ["d", 0.01]}] + [{"op": "wait", "when": ["t", 0, "+4"]}] * k + [{"op": "stop", "when": ["t", 0, off]}, {"op": "wait", "when": ["d", 2.5]}]}
                   for k in range(5) for off in ("-4", "-q", "+q", "+4")],
             ]
+    # an answer to a FindService still waits in the requester's send collector when the instance is stopped
+    for cyc in (0, 1):
+        tm = dict(base, cyc=cyc, coll=0.05, rmin=0.003, rmax=0.02)
+        for mc in (False, True):
+            out.append({"kind": "script", "tm": tm, "n": 1, "fr": [0.5], "steps": [{"op": "start", "when": ["d", 0.01]}, dict(find, mc=mc, when=["d", 1.5]), {"op": "stop", "when": ["d", 0.03]}, {"op": "wait", "when": ["d", 1.0]}]})
     return out
 
 
@@ -359,6 +366,31 @@ def run_case(case):
                 if e.ttl != 0 and rem is None:
                     pass
             mc_wire = [e for e in w_off if e["ttl"] != 0 and e["dest"] == MCAST]
+            # on the wire, no offer of a run may leave after that run's StopOffer (an entry that still waits in another
+            # destination's send collector when the instance is stopped). Wire entries are matched to queue records per
+            # destination in order (C15).
+            per_dest_q = collections.defaultdict(list)
+            for q in q_i:
+                per_dest_q[MCAST if q[2] is None else q[2]].append(q)
+            order = {}
+            for n_, e in enumerate(sent):
+                order[id(e)] = n_
+            per_dest_w = collections.defaultdict(list)
+            for e in w_off:
+                per_dest_w[e["dest"]].append(e)
+            stop_pos = {}   # run index -> transmission position of its StopOffer
+            for dest, ws in per_dest_w.items():
+                for e, q in zip(ws, per_dest_q.get(dest, [])):
+                    if e["ttl"] == 0:
+                        ts_ = q[0]
+                        same = [ri for ri, r in enumerate(runs[i]) if r["stop"] is not None and abs(r["stop"] - ts_) < RES]
+                        if len(same) == 1:   # several runs ending at one instant: the StopOffers can not be told apart
+                            stop_pos.setdefault(same[0], order[id(e)])
+            for dest, ws in per_dest_w.items():
+                for e, q in zip(ws, per_dest_q.get(dest, [])):
+                    if e["ttl"] != 0 and q[4] in stop_pos and order[id(e)] > stop_pos[q[4]]:
+                        require(False, "C10.offer-after-stopoffer",
+                                f"instance {INST[i]}: an offer with TTL {e['ttl']} queued at t={q[0]:.6f} for {dest} (run {q[4]}, stopped at {runs[i][q[4]]['stop']:.6f}) left at t={e['t']:.6f}, after the StopOffer of that stop")
             qm = [q for q in q_i if q[1].ttl != 0 and q[2] is None]
             require(sum(1 for q in qm if q[0] <= end - t["coll"] - RES) <= len(mc_wire) <= len(qm), "C10.offer-destination",
                     lambda: f"instance {INST[i]}: {len(mc_wire)} offers reached the multicast group, {len(qm)} were queued for it")
